@@ -22,7 +22,7 @@ var edge64 = func() []int64 {
 func TestC15(t *testing.T) {
 	runProp(t, "C15", checkC15, func(t *rapid.T) *Case {
 		c := &Case{}
-		kinds := []string{"I8", "I16", "I32", "I64", "U16", "U32", "U64", "Int", "String16", "String16", "Bytes", "Dummy", "TypeEnc", "TypeEnc"}
+		kinds := []string{"I8", "I16", "I32", "I64", "U16", "U32", "U64", "Int", "String16", "String16", "Bytes", "Dummy", "TypeEnc", "TypeEnc", "TypeEnc"}
 		c.Kind = kinds[pickU(t, "kind", len(kinds))]
 		c.Gen = c.Kind
 		if rapid.Bool().Draw(t, "junk?") {
@@ -57,7 +57,7 @@ func TestC15(t *testing.T) {
 				c.Vals = append(c.Vals, Hex(b))
 			}
 		case "TypeEnc":
-			c.Block = rapid.IntRange(0, teKinds-1).Draw(t, "eltkind")
+			c.Block = pickU(t, "eltkind", teKinds)
 			c.Scrib = rapid.IntRange(0, 1).Draw(t, "bigendian") | rapid.IntRange(0, 1).Draw(t, "pointer")<<1 | rapid.IntRange(0, 3).Draw(t, "ctor")<<2
 			n := rapid.IntRange(1, 6).Draw(t, "n")
 			for i := 0; i < n; i++ {
